@@ -11,6 +11,7 @@ CLAIMED = {
  "C08": ("as C07 for coverage depth (BigBedSpec!ZoomsOKB)", "TLC model checking + replay + TLC observation validation", "4 C08"),
  "C03": ("all layouts x ALL ranges judged by IntervalOK/ValuesOK; Reader.tla (cache maps with capacity reset, lazily cached index offset, reopen) model-checked for HistoryIndependent over every bounded history, each history replayed on one real reader instance and every answer judged by TLC", "TLC model checking of histories + replay + TLC observation validation", "4 C03"),
  "C05": ("RTree.tla: construction, byte layout and DFS search checked exhaustively for n <= N blocks and fan-out b <= B (pointer exactness, containment, Search = LinearScan); every shape written by the real writer, main and zoom index decoded by the independent codec and the decoded image validated by TLC; all range queries through the real index judged by TLC", "TLC model checking + replay + TLC validation of decoded images", "4 C05"),
+ "C14": ("SinkOrder.tla (region order, crash after every operation, PrefixSafe; a header-first design is rejected); the real write/seek/flush log is trace-validated by TLC at byte granularity with PrefixSafe after every operation; every crash prefix is reopened with the real readers and every operation is failed in turn, both judged by TLC", "TLC model checking + TLC trace validation of recorded sink operations + crash-prefix / fault enumeration judged by TLC", "4 C14"),
  "C18": ("Slicing.tla: bisection indexer, FileView (clamping cursor) and chunker; TLC checks mechanism => IndexExact / ChunksOK on every small grouped file and enumerates every bounded read/seek sequence; each file / sequence is executed on the real index_chroms, FileView and split_file_into_chunks_by_size and judged by TLC", "TLC model checking + replay + TLC observation validation", "4 C18"),
  "C12": ("TLC explores every interleaving of TempFileBuffer.tla (safety + liveness under weak fairness), emits every schedule, the real buffer is driven through each and the recorded events are trace-validated by TLC; threaded runs are validated with a linearisation trace spec", "TLC model checking + schedule replay + TLC trace validation (incl. linearisation)", "4 C12"),
  "C13": ("TLC enumerates every small stream (valid, degenerate, invalid); the real writers consume each through iterator/file/parallel sources; TLC judges the outcome with Refusal!RefusalOK", "TLC enumeration + replay + TLC observation validation", "4 C13"),
